@@ -788,6 +788,10 @@ func castArr(opts *options, v value) ([]value, Error) {
 		}
 		opts.activeFields = active
 		if err != nil {
+			if causedByCycle(err) {
+				// no missing setting: the reference is cyclic, say so
+				return nil, reifyErrAt(ref, err).(Error)
+			}
 			// the failing setting is ref itself: its path, its source
 			return nil, raisePathErr(ErrMissing, ref.meta(), err.Error(), ref.ctx.path("."))
 		}
